@@ -31,7 +31,7 @@ GLOBAL_ASSUMPTIONS = [
 
 def load_spec(prop):
     import sys as _sys
-    for dep in ("polycommon",):
+    for dep in ("polycommon", "ivpcommon"):
         dp = os.path.join(VERIF, "specs", dep + ".py")
         if os.path.exists(dp) and ("specs_" + dep) not in _sys.modules:
             sp = importlib.util.spec_from_file_location("specs_" + dep, dp)
